@@ -828,7 +828,7 @@ def check(ctx):
             strings.update(''.join(t) for t in itertools.product(red, repeat=k))
         ctx.notes.append('parse/str: additionally every string of length 7 and 8 over %r' % ''.join(red))
     strings = sorted(strings)
-    ctx.notes.append('parse/str: every string of length <= %d over %r plus %d structured names and ISO codes' % (maxlen, ''.join(ALPHA), len(strings)))
+    ctx.notes.append('parse/str: every string of length <= %d over %r, structured names, near-misses and ISO codes: %d strings in all' % (maxlen, ''.join(ALPHA), len(strings)))
     run_stream(ctx, 'lparse', 'impl_parse', strings, lambda s: 'lparse ' + enc_str(s), 'parse')
     zs = [s for s in strings if len(s) <= maxlen - 1]
     run_stream(ctx, 'lparsez', 'impl_parse_z', zs, lambda s: 'lparsez ' + enc_str(s), 'parseZ')
